@@ -226,6 +226,7 @@ impl Callbacks for Facts {
         let mut adts = vec![];
         let mut impls = vec![];
         let mut fns = vec![];
+        let mut consts = vec![];
         let mut mirs = vec![];
         let mut n_bodies = 0usize;
 
@@ -253,6 +254,9 @@ impl Callbacks for Facts {
                     n_bodies += 1;
                     mirs.push(mirdump::dump_body(&mut cx, did));
                 }
+                DefKind::Const { .. } | DefKind::AssocConst { .. } | DefKind::Static { .. } => {
+                    consts.push(hirdump::dump_const(&mut cx, did));
+                }
                 _ => {}
             }
         }
@@ -272,6 +276,7 @@ impl Callbacks for Facts {
             ("impls", J::A(impls)),
             ("exports", exports),
             ("fns", J::A(fns)),
+            ("consts", J::A(consts)),
         ]);
         let mir = J::O(vec![
             ("crate", J::S(crate_name.clone())),
